@@ -243,6 +243,41 @@ func runC08(args []string) error {
 			return err
 		}
 		stream2 := buf2.Bytes()
+		// the SAVER is interrupted: a stop signal that is already given, or a sink that fails after some bytes - the
+		// save must report an error (a stream that ends early must not pass for a snapshot)
+		for mode := 0; mode < 3; mode++ {
+			ctx3, err := src.f.PrepareSnapshot()
+			if err != nil {
+				return err
+			}
+			stopc := make(chan struct{})
+			var sink io.Writer = &bytes.Buffer{}
+			descr := "stop signal given before the save starts"
+			switch mode {
+			case 0:
+				close(stopc)
+			case 1:
+				sink = &limitWriter{left: 0}
+				descr = "sink fails at the first byte"
+			default:
+				sink = &limitWriter{left: len(stream2) / 2}
+				descr = "sink fails half way"
+			}
+			var serr error
+			func() {
+				defer func() {
+					if r := recover(); r != nil {
+						serr = fmt.Errorf("PANIC: %v", r)
+					}
+				}()
+				serr = src.f.SaveSnapshot(ctx3, sink, stopc)
+			}()
+			sum.Evaluations++
+			sum.hist("interruptions").Inc("saver: " + descr)
+			if serr == nil || strings.HasPrefix(serr.Error(), "PANIC") {
+				sum.violate(c, "an interrupted snapshot save does not report an error", map[string]any{"case": c, "saver_format": fmtName(srcT), "interruption": descr, "stream_bytes": len(stream2)}, fmt.Sprint(serr))
+			}
+		}
 		for oi, j := range offsets {
 			if j > len(stream2) {
 				j = len(stream2)
@@ -490,4 +525,17 @@ func runC08(args []string) error {
 	sum.CasesFiles = names
 	_ = rand.Int
 	return sum.write(rf.Out, "c08")
+}
+
+// limitWriter accepts [left] bytes and then fails.
+type limitWriter struct{ left int }
+
+func (l *limitWriter) Write(p []byte) (int, error) {
+	if len(p) > l.left {
+		n := l.left
+		l.left = 0
+		return n, fmt.Errorf("injected: sink failed")
+	}
+	l.left -= len(p)
+	return len(p), nil
 }
